@@ -508,6 +508,9 @@ def variants():
     return [
         Variant("f-scale-memo-never-reset", "bad", _scale_memo_variant(False), ["C15.f"], quick=True),
         Variant("f-scale-memo-reset-benign", "benign", _scale_memo_variant(True)),
+        Variant("e-weights-cast-to-data-dtype", "bad", replace_stmt(cl, "GaussianMixture.fit", "sample_weight = np.asarray(sample_weight)", "sample_weight = np.asarray(sample_weight, dtype=X.dtype)"), ["C15.e"], quick=True),
+        Variant("e-benign-weights-float", "benign", replace_stmt(cl, "GaussianMixture.fit", "sample_weight = np.asarray(sample_weight)", "sample_weight = np.asarray(sample_weight, dtype=float)")),
+        Variant("c-errstate-raise", "bad", replace_stmt(cl, f"{H}._compute_gaussian_probabilities", "log_prob_norm = logsumexp(log_probabilities, axis=1, keepdims=True)", "with np.errstate(all='raise'):\n    log_prob_norm = logsumexp(log_probabilities, axis=1, keepdims=True)"), ["C15.c"]),
         Variant("a-cap-or-default", "bad", replace_stmt(cl, f"{H}.__init__", "self.max_iterations = max_iterations", "self.max_iterations = max_iterations or 1000"), ["C15.a"], quick=True),
         Variant("a-counter-conditional", "bad", replace_stmt(cl, f"{H}.fit", "iteration += 1", "if best_split is not None:\n    iteration += 1"), ["C15.a", "ANALYSIS-ERROR"]),
         Variant("a-loop-le", "bad", replace_expr(cl, f"{H}.fit", "iteration < self.max_iterations", "iteration <= self.max_iterations"), ["C15.a"], quick=True),
